@@ -109,7 +109,7 @@ Definition check_C08 (op : bytes) (input impl : arg) : arg :=
     let meas := arg_N (arg_nth 1 impl) in
     let cpu := arg_N (arg_nth 3 impl) in
     if (status =? 5)%Z then AB (bs "allocation not bounded by input size: the memory limit was exhausted" ++ diagnose comp d)
-    else if (status =? 4)%Z then AS "inspection did not terminate within the deadline"
+    else if (status =? 4)%Z then AS "time not bounded: no result within the 300 s wall-clock deadline of the worker"
     else if (status =? 3)%Z then AB (bs "fatal runtime error during inspection" ++ diagnose comp d)
     else if spec_K * n + spec_C <? meas then
       AB (bs "allocation not bounded by input size: " ++ dec_of_N meas ++ bs " bytes allocated for an input of "
